@@ -4,4 +4,5 @@ def protoFields : List String := ["Addr", "Timestamp", "State", "Tokens", "Zone"
 def comparedFields : List String := ["Addr", "Zone", "RegisteredTimestamp", "ReadOnly", "ReadOnlyUpdatedTimestamp", "Versions", "Tokens", "Timestamp", "State"]
 def refreshedFields : List String := ["State", "Timestamp"]
 def refreshedFieldsLookback : List String := ["State", "Timestamp"]
+def fieldUse : List (String × String) := [("Addr", "D"), ("Timestamp", "S"), ("State", "S"), ("Tokens", "D"), ("Zone", "D"), ("RegisteredTimestamp", "D"), ("Id", "E"), ("ReadOnlyUpdatedTimestamp", "D"), ("ReadOnly", "D"), ("Versions", "D")]
 end Generated.C13
